@@ -165,7 +165,7 @@ func (e *Engine) register(cf *ContractFile) error {
 		switch c.Kind {
 		case "func", "assume":
 			variant := ""
-			if i := strings.Index(c.Key, "#"); i >= 0 {
+			if i := variantSep(c.Key); i >= 0 {
 				// "Func#variant": an additional contract verified against the same body (for example a
 				// safety-only contract without preconditions); call sites use the plain contract
 				variant = c.Key[i:]
@@ -361,3 +361,14 @@ func (e *Engine) Fresh(hint string) string {
 }
 
 func (e *Engine) FreshVar(hint string, s *Sort) *Term { return Var(e.Fresh(hint), s) }
+
+// variantSep: position of the '#' that separates a variant name ("F#safety"); go/ssa names package
+// initialisers "init#1", so a '#' followed by a digit belongs to the function name.
+func variantSep(key string) int {
+	for i := 0; i < len(key); i++ {
+		if key[i] == '#' && !(i+1 < len(key) && key[i+1] >= '0' && key[i+1] <= '9') {
+			return i
+		}
+	}
+	return -1
+}
